@@ -9,4 +9,5 @@ Extraction Language OCaml.
 Set Extraction KeepSingleton.
 Extraction "models_err.ml"
   check_data sum_after sum_refused doc_fval check_query query_step add_calibration find_slot
-  actual_errno callbacks gen_errno_of_code gen_errno_of doc_errno add_standard.
+  actual_errno callbacks gen_errno_of_code gen_errno_of doc_errno add_standard_current
+  gen_get_z0_strict gen_set_z0_strict gen_get_fz0_strict gen_set_fz0_strict gen_add_common_prevalidates.
